@@ -361,6 +361,27 @@ theorem handshake_then_wrong_session (A B : Initiator) (nA nB : Nat)
   obtain ⟨k, h1, _, _, _⟩ := mutual_handshake_establishes_session A B nA nB hgA hgB hb hwA hwB
   exact ⟨k, h1, fun m k' hnc => System.session_message_wrong_session_rejected m k k' hnc⟩
 
+/-- **(5) with the implementation's hash, MAC, MAC verification and frame cipher**
+    (`Sha256::digest`, `HmacSha256::compute`/`verify`, `ChaCha20::apply` as transcribed by C08/C09):
+    the same end-to-end statement, word for word. -/
+theorem implementation_level_handshake_then_transport (A B : Initiator) (nA nB : Nat)
+    (hgA : GoodScalar A.id.scalar) (hgB : GoodScalar B.id.scalar) (hb : capped A.bits = capped B.bits)
+    (hwA : A.work B.id.peerId = some nA) (hwB : B.work A.id.peerId = some nB) :
+    ∃ k : List UInt8,
+      performHandshake EphVerif.Model.Sha256.digest EphVerif.Model.Hmac.compute A.id A.bits B.id.peerId B.id.pub nB = some k ∧
+      performHandshake EphVerif.Model.Sha256.digest EphVerif.Model.Hmac.compute B.id B.bits A.id.peerId A.id.pub nA = some k ∧
+      ∀ (sends : List (List UInt8 × Msg)) (chunks : List (List UInt8)),
+        (∀ s ∈ sends, s.1.length = 12) → (∀ s ∈ sends, System.Faithful s.2) →
+        (∀ s ∈ sends, (encodeSigned EphVerif.Model.Hmac.compute s.2 k).length ≤ 1048576) →
+        chunks.flatten = sends.flatMap
+          (fun s => System.implFrame k s.1 (encodeSigned EphVerif.Model.Hmac.compute s.2 k)) →
+        ((Frames.feedChunks k Frames.Reader.init chunks).delivered.map (System.decodeSignedViaVerify · k)
+            = sends.map (fun s => .ok s.2)) ∧
+          (Frames.feedChunks k Frames.Reader.init chunks).ended = none := by
+  obtain ⟨k, h1, h2, hl⟩ := implementation_level_mutual A B nA nB hgA hgB hb hwA hwB
+  refine ⟨k, h1, h2, fun sends chunks hn hf hlen hc => ?_⟩
+  exact System.implementation_level_transport k k sends chunks hl hn hf hlen hc
+
 /-! ## non-vacuity: concrete small identities, 2 bits of work, real SHA-256 / HMAC evaluated by the kernel -/
 
 def alice : Initiator := ⟨⟨[1], 123456789⟩, 2, fun s => s % 7⟩
